@@ -62,10 +62,12 @@ class CallSem(Semantics):
         return s
 
 
-def rule_exit_persists(ctx, r):
+def rule_exit_persists(ctx, r, which=("tracked jobs", "spec hashes")):
     """__exit__ of both stores calls close() on every path (also when an exception is in flight) and does not swallow it."""
     idx = ctx.index
     for ckey, _attr, label in STORES:
+        if label not in which:
+            continue
         ci = idx.cls(ckey)
         ex = idx.method(ci, "__exit__")
         en = idx.method(ci, "__enter__")
@@ -95,144 +97,98 @@ def rule_exit_persists(ctx, r):
         r.check(ret_self, f"{ci.module.relpath}::{ci.qual}.__enter__", "__enter__ returns self", f"{ci.name}.__enter__ does not return the store itself", en.where)
 
 
-def _flag_guard_ok(ctx, ci, close_m, attr):
-    """A `if not self.<flag>: return` guard in close() is acceptable only if every table mutation sets the flag to True
-    and nothing but the initialiser ever sets it to anything else."""
-    idx = ctx.index
-    flags = set()
-    for n in walk_no_nested(close_m.node):
-        if isinstance(n, ast.If):
-            t = n.test
-            if isinstance(t, ast.UnaryOp) and isinstance(t.op, ast.Not) and isinstance(t.operand, ast.Attribute) and dotted(t.operand.value) == "self":
-                flags.add(t.operand.attr)
-    problems = []
-    for flag in flags:
-        if flag == attr:
-            problems.append(f"close() skips the write when self.{attr} is empty: a table emptied by this command is never persisted and the old records come back")
-            continue
-        for m in ci.methods.values():
-            mutates = False
-            sets_true = False
-            for n in walk_no_nested(m.node):
-                if isinstance(n, (ast.Assign, ast.Delete, ast.AugAssign)):
-                    tg = n.targets if hasattr(n, "targets") else [n.target]
-                    for t in tg:
-                        if isinstance(t, ast.Subscript) and isinstance(t.value, ast.Attribute) and t.value.attr == attr:
-                            mutates = True
-                        if isinstance(t, ast.Attribute) and t.attr == flag and dotted(t.value) == "self":
-                            v = getattr(n, "value", None)
-                            if isinstance(v, ast.Constant) and v.value is True:
-                                sets_true = True
-                            elif m.name not in ("__init__", "__attrs_post_init__", "close") and not (isinstance(v, ast.Constant) and v.value is True):
-                                problems.append(f"{m.name} assigns `{ast.unparse(n)}`: the dirty flag can be reset while unsaved changes exist")
-                if isinstance(n, ast.Call) and isinstance(n.func, ast.Attribute) and n.func.attr in ("pop", "update", "clear", "setdefault", "popitem") \
-                        and isinstance(n.func.value, ast.Attribute) and n.func.value.attr == attr:
-                    mutates = True
-            if mutates and not sets_true and m.name not in ("__init__", "__attrs_post_init__"):
-                problems.append(f"{m.name} changes self.{attr} without setting self.{flag} = True")
-    return flags, problems
+def _check_close_events(events, table, lpath):
+    """None if the recorded events of a close() are an atomic save of `table` over `lpath`, else a message."""
+    dumps = [(i, e) for i, e in enumerate(events) if e[0] == "dump"]
+    if not dumps:
+        return "nothing is written"
+    i_dump, d = dumps[-1]
+    if d[1] != table:
+        return (f"what is saved ({d[1]}) is not the in-memory table ({table}): ids/hashes recorded by this invocation are lost or replaced by stale ones")
+    tmp = d[2]
+    opens = [(i, e) for i, e in enumerate(events) if e[0] == "open" and e[1] == tmp and any(ch in str(e[2]) for ch in "wxa+")]
+    if not opens or opens[-1][0] > i_dump:
+        return f"the table is dumped to `{tmp}` which was not opened for writing before"
+    if tmp == lpath:
+        return (f"the file is rewritten in place (open({lpath.replace('⟦PROJ⟧', '<project>')}, 'w') truncates the very file the next start json.load()s): "
+                "a kill inside the write leaves an unreadable prefix")
+    if any(e[0] == "open" and e[1] == lpath and any(ch in str(e[2]) for ch in "wxa+") for e in events):
+        return "the state file itself is also opened for writing (truncated in place)"
+    closes = [i for i, e in enumerate(events) if e[0] == "close" and e[1] == tmp and i > i_dump]
+    reps = [(i, e) for i, e in enumerate(events) if e[0] == "replace"]
+    good = [i for i, e in reps if e[1] == tmp and e[2] == lpath]
+    if not good:
+        return f"the temporary file `{tmp}` is never os.replace()d over `{lpath}`: what this command recorded is lost"
+    if not closes or good[-1] < closes[0]:
+        return ("os.replace() runs before the temporary file is closed (inside the with-block): the rename can publish a file whose content is still in Python's "
+                "buffer, so a kill or a failing flush leaves an empty/truncated state file")
+    if not (tmp.startswith(lpath) or tmp.rsplit("/", 1)[0] == lpath.rsplit("/", 1)[0]):
+        return f"the temporary file `{tmp}` is not in the directory of `{lpath}` (rename across file systems is not atomic)"
+    return None
 
 
-def rule_close_writes(ctx, r):
-    """close() of both stores writes the in-memory table on every path (a skip is allowed only under a sound dirty flag)."""
+def rule_store_close(ctx, r, which=("tracked jobs", "spec hashes")):
+    """close() of both stores saves the in-memory table atomically (temp file in the same directory, closed, then os.replace over the
+    file the next start loads), whatever was changed before - decided by template evaluation of close() after short mutation scripts."""
+    from .evalhelpers import eval_close, load_path
     idx = ctx.index
+    done = r.__dict__.setdefault("_store_close_done", set())
     for ckey, attr, label in STORES:
+        if label not in which or label in done:
+            continue
+        done.add(label)
         ci = idx.cls(ckey)
         cm = idx.method(ci, "close")
         con = f"{ci.module.relpath}::{ci.qual}.close"
         if cm is None:
             r.violation(con, f"no close() for the {label} store", ci.where)
             continue
-        sem = CallSem(idx, cm, [("dumped", lambda c: isinstance(c.func, (ast.Name, ast.Attribute)) and idx.canon(c.func, cm.module) in ("json.dump",)
-                                  or (isinstance(c.func, ast.Attribute) and c.func.attr == "write" and any(
-                                      isinstance(x, ast.Call) and idx.canon(x.func, cm.module) == "json.dumps" for x in ast.walk(c) if isinstance(x, ast.Call) and isinstance(x.func, (ast.Name, ast.Attribute)))))])
-        outs = Explorer(sem).run(State())
-        skipping = [o for o in outs if o.kind == RETURN and not o.state.facts.get("dumped")]
-        if skipping:
-            flags, problems = _flag_guard_ok(ctx, ci, cm, attr)
-            if problems or not flags:
-                msg = problems[0] if problems else f"close() can return without writing the {label}"
-                r.violation(con + "::always-writes", msg, cm.where, fmt_trace(skipping[0].state, cm.module))
+        lpath = load_path(ctx, ckey, attr)
+        if lpath is None:
+            r.violation(con + "::load", f"cannot find where the {label} file is loaded", ci.where)
+            continue
+        hooks_hash = {}
+        base = {"A": "⟦V_A⟧", "B": "⟦V_B⟧"}
+        scenarios = [("unchanged table, stale file on disk", dict(base), [], dict(base), False)]
+        if label == "spec hashes":
+            scenarios += [
+                ("update(T) then close", dict(base), [("update", "T")], None, True),
+                ("invalidate(A), invalidate(missing) then close", dict(base), [("invalidate", "A"), ("invalidate", "ZZ")], {"B": "⟦V_B⟧"}, True),
+                ("invalidate of the last record then close", {"A": "⟦V_A⟧"}, [("invalidate", "A")], {}, True),
+            ]
+        n_ok = 0
+        for name, table, script, want, must_write in scenarios:
+            events, err, obj = eval_close(ctx, ckey, attr, table, script, disk={"A": "⟦STALE⟧", "Z": "⟦STALE_Z⟧"})
+            if err is not None:
+                r.violation(con + f"::{name}", f"{label}: close() cannot be evaluated after `{name}` ({err})", cm.where)
+                continue
+            final = dict(getattr(obj, attr))
+            if want is not None and final != want and script:
+                # the mutation methods themselves are checked elsewhere; here only what close() does with the table
+                pass
+            dumps = [e for e in events if e[0] == "dump"]
+            if not dumps:
+                if must_write:
+                    r.violation(con + f"::{name}", f"{label}: after `{name}` close() writes nothing: the change made by this command is never persisted "
+                                "(the old records come back at the next invocation)", cm.where)
+                else:
+                    n_ok += 1  # nothing changed, skipping the write is fine
+                continue
+            msg = _check_close_events(events, final, lpath)
+            if msg:
+                r.violation(con + f"::{name}", f"{label}: {msg}", cm.where)
             else:
-                r.ok(con + "::always-writes", f"write skipped only under a sound dirty flag {sorted(flags)}", cm.where)
-        else:
-            r.ok(con + "::always-writes", f"every path of close() dumps self.{attr}", cm.where)
-        # what is dumped
-        dumped = None
-        for c in _calls(cm.node):
-            if isinstance(c.func, (ast.Name, ast.Attribute)) and idx.canon(c.func, cm.module) == "json.dump" and c.args:
-                dumped = c.args[0]
-        if dumped is not None and ckey.endswith("FileSpecHashes"):
-            r.check(ast.unparse(dumped) in (f"self.{attr}", f"dict(self.{attr})"), con + "::dump", f"dumps self.{attr}",
-                    f"close() saves `{ast.unparse(dumped)[:60]}` instead of the in-memory {label}", cm.where)
+                n_ok += 1
+        if n_ok == len(scenarios):
+            r.ok(con, f"{len(scenarios)} scenario(s): table saved atomically over {lpath.replace('⟦PROJ⟧', '<project>')}", cm.where)
 
 
-def rule_atomic_replace(ctx, r):
-    """State files are written to a temporary name and os.replace()d over the file that __init__ loads, after the temp file is closed."""
-    idx = ctx.index
-    for ckey, attr, label in STORES:
-        ci = idx.cls(ckey)
-        cm = idx.method(ci, "close")
-        con = f"{ci.module.relpath}::{ci.qual}.close::atomic"
-        if cm is None:
-            continue
-        # load path expression
-        load_expr = None
-        for m in ci.methods.values():
-            if m.name in ("__attrs_post_init__", "__init__") or any((d or "").endswith(".default") for d in m.decorator_names()):
-                for c in _calls(m.node):
-                    if isinstance(c.func, (ast.Name, ast.Attribute)) and idx.canon(c.func, m.module) == "builtins.open" and c.args:
-                        load_expr = ast.unparse(c.args[0])
-        if load_expr is None:
-            r.violation(con, f"cannot find where the {label} file is loaded", ci.where)
-            continue
-        local_defs = {}
-        for n in walk_no_nested(cm.node):
-            if isinstance(n, ast.Assign) and isinstance(n.targets[0], ast.Name):
-                local_defs[n.targets[0].id] = n.value
+def rule_close_writes(ctx, r, which=("tracked jobs", "spec hashes")):
+    rule_store_close(ctx, r, which)
 
-        def expand(e, depth=0):
-            if isinstance(e, ast.Name) and e.id in local_defs and depth < 4:
-                return expand(local_defs[e.id], depth + 1)
-            if isinstance(e, ast.BinOp) and isinstance(e.op, ast.Add):
-                return f"{expand(e.left, depth + 1)} + {expand(e.right, depth + 1)}"
-            if isinstance(e, ast.Call) and isinstance(e.func, ast.Name) and e.func.id == "str" and len(e.args) == 1:
-                return expand(e.args[0], depth + 1)
-            return ast.unparse(e)
 
-        opens = []
-        for n in walk_no_nested(cm.node):
-            if isinstance(n, ast.With):
-                for item in n.items:
-                    c = item.context_expr
-                    if isinstance(c, ast.Call) and idx.canon(c.func, cm.module) == "builtins.open" and c.args:
-                        opens.append((n, c, expand(c.args[0])))
-        replaces = [c for c in _calls(cm.node) if isinstance(c.func, (ast.Name, ast.Attribute)) and idx.canon(c.func, cm.module) in ("os.replace", "os.rename")
-                    and len(c.args) == 2]
-        if not opens:
-            r.violation(con, f"close() does not write the {label} file", cm.where)
-            continue
-        w, oc, opath = opens[-1]
-        if opath == load_expr:
-            r.violation(con, f"the {label} file is rewritten in place (open({load_expr}, 'w') truncates the very file the next start json.load()s): "
-                        "a kill inside the write leaves an unreadable prefix", loc(oc, cm.module))
-            continue
-        if not (opath.startswith(load_expr + " + ") and opath.count(" + ") == 1):
-            r.violation(con, f"the {label} are written to `{opath}`, which is not a temporary name next to `{load_expr}`", loc(oc, cm.module))
-            continue
-        good = [c for c in replaces if expand(c.args[0]) == opath and expand(c.args[1]) == load_expr]
-        if not good:
-            r.violation(con, f"the temporary file `{opath}` is never os.replace()d over `{load_expr}`: the {label} written by this command are lost",
-                        loc(oc, cm.module))
-            continue
-        rc = good[0]
-        inside = any(rc in list(ast.walk(st)) for st in w.body)
-        after = rc.lineno > max(getattr(x, "end_lineno", x.lineno) for x in w.body)
-        if inside or not after:
-            r.violation(con, "os.replace() runs before the temporary file is closed (inside the with-block): the rename can publish a file whose content "
-                        "is still in Python's buffer, so a kill or a failing flush leaves an empty/truncated state file", loc(rc, cm.module))
-            continue
-        r.ok(con, f"open({opath}) ... then os.replace(tmp, {load_expr}) after the with-block", loc(rc, cm.module))
+def rule_atomic_replace(ctx, r, which=("tracked jobs", "spec hashes")):
+    rule_store_close(ctx, r, which)
 
 
 def explore_submit_backend(ctx):
